@@ -208,6 +208,16 @@ func (a *alphabetCtx) dkgAlphabet(keyGood, keyBad, poly []byte) []*exEvent {
 			a.ev("responseerr", p, "valid", -1, EvResponseErr, mkReq(requests.DKGProposalConfirmationErrorRequest{ParticipantId: p, Error: fe, CreatedAt: t}), ""),
 			a.ev("masterkeyerr", p, "valid", -1, EvMasterKeyErr, mkReq(requests.DKGProposalConfirmationErrorRequest{ParticipantId: p, Error: fe, CreatedAt: t}), ""),
 		)
+		if p == 0 {
+			// an error report whose text carries control bytes, quotes and a non-UTF-8 byte (a machine
+			// echoing raw bytes of a broken operation): it is persisted inside the round
+			// (built as a plain JSON object: the harness must not depend on the repository's own marshaller)
+			hostileReq := mkReq(map[string]interface{}{"ParticipantId": p, "Error": "bad \x01\x07\x7f\v \"quoted\" \\ \u2028 end", "CreatedAt": t})
+			out = append(out,
+				a.ev("commiterr", p, "hostile-text", -1, EvCommitErr, hostileReq, ""),
+				a.ev("responseerr", p, "hostile-text", -1, EvResponseErr, hostileReq, ""),
+			)
+		}
 	}
 	return out
 }
